@@ -391,7 +391,19 @@ def r4_delimiter_provenance(ctx):
             ok = got == 'self.' + nm
             yield Ob('x12file:X12Reader.__iter__ Segment arg %d is the header %s' % (i, nm), ok, ctx.floc(it, c),
                      '' if ok else 'argument %d is %s' % (i, norm(c.args[i]) if len(c.args) > i else 'missing'))
-        ok = bool(c.args) and path_of(c.args[0]) == 'line'
+        # the text handed to Segment is the token the tokenizer yielded, at most left-stripped (whatever it is called)
+        from ..cfg import derives_only_from, node_of
+        g_it = ctx.cfg(it)
+
+        def _is_tok(e, nd):
+            return isinstance(e, tuple) and e[0] == 'iter' and e[1] is not None and path_of(e[1]) == 'self.raw'
+
+        def _unwrap(e):
+            if isinstance(e, ast.Call) and isinstance(e.func, ast.Attribute) and e.func.attr == 'lstrip' and not e.args and not e.keywords:
+                return e.func.value
+            return None
+        at = node_of(g_it, c)
+        ok = bool(c.args) and at is not None and derives_only_from(g_it, c.args[0], at, _is_tok, _unwrap)
         yield Ob('x12file:X12Reader.__iter__ Segment is built from the token', ok, ctx.floc(it, c), '' if ok else 'first argument is %s' % norm(c.args[0]))
     # X12Reader.__init__: every delimiter attribute is the get_term() field of the same name.  Recognised forms:
     #   (a, b, ..) = self.raw.get_term() ; self.x = a        (a, b may be attributes themselves)
@@ -526,10 +538,10 @@ def r6_isa_not_subsplit(ctx):
 
 
 RULES = [
-    Rule('C01.R1', 'literal open() modes valid on every supported interpreter; reader opens the path for text reading', r1_open_modes, floor=20),
-    Rule('C01.R2', 'ISA header offsets = offsets derived from dataele widths; version whitelist = control maps', r2_isa_offsets, floor=12),
-    Rule('C01.R3', 'every tokenizer-loop exit is an end-of-stream exit; header read retries', r3_tokenizer_exits, floor=7),
-    Rule('C01.R4', 'Segment delimiters come from the header; get_term tuple positions agree', r4_delimiter_provenance, floor=12),
-    Rule('C01.R5', 'strip set in front of a token is exactly {CR, LF}; leading blank reported', r5_strip_set, floor=2),
-    Rule('C01.R6', 'ISA elements are never split at the component separator', r6_isa_not_subsplit, floor=3),
+    Rule('C01.R1', 'literal open() modes valid on every supported interpreter; reader opens the path for text reading', r1_open_modes, floor=15),
+    Rule('C01.R2', 'ISA header offsets = offsets derived from dataele widths; version whitelist = control maps', r2_isa_offsets, floor=9),
+    Rule('C01.R3', 'every tokenizer-loop exit is an end-of-stream exit; header read retries', r3_tokenizer_exits, floor=5),
+    Rule('C01.R4', 'Segment delimiters come from the header; get_term tuple positions agree', r4_delimiter_provenance, floor=9),
+    Rule('C01.R5', 'strip set in front of a token is exactly {CR, LF}; leading blank reported', r5_strip_set, floor=1),
+    Rule('C01.R6', 'ISA elements are never split at the component separator', r6_isa_not_subsplit, floor=2),
 ]
